@@ -521,6 +521,12 @@ func (r *mwRun) vacuumStep(s MWStep, where string) error {
 				fmt.Fprintf(os.Stderr, "  version %s parents %v still=%v anc=%v nodes=%d\n", name, wk.Version.Parents, still, anc[name], len(wk.Nodes))
 			}
 		}
+		if len(garbage) > 0 && len(r.interrupted) > 0 {
+			// a vacuum that was cut short can no longer work out what the versions it half-deleted
+			// needed: what it left behind is not demanded of later vacuums (DESIGN 9.1)
+			r.o.Exclude("garbage-check-after-interrupted-vacuum")
+			garbage = nil
+		}
 		if len(garbage) > 0 && r.hadRetireFault && !r.c.NoSteerK8 {
 			// K8: after a version was merged together with its own ancestor (which only happens
 			// when a retirement failed), the link diff between the merge version and its purged
